@@ -406,6 +406,51 @@ pub fn run(ctx: &mut Ctx) {
         let case = Case::new("mirror", sp.text, 0, "empty").with(json!({"factor": f}));
         mirror(ctx, &case, f);
     }
+    // "every input the canonical parser accepts": short strings over the token alphabet (exhaustive), random and
+    // mutated ones — escapes at line ends, CR/CRLF soup, comments, odd blocks; only canonically valid ones are mirrored
+    {
+        use crate::gen::alphabet::{self, ALPHABET, SEEDS, SMALL};
+        let max = if ctx.is_thorough() { 3 } else { 2 };
+        let total = alphabet::count_upto(SMALL.len(), max);
+        let mut s = String::new();
+        let mut idx = ctx.shard as u64;
+        while idx < total {
+            alphabet::nth(SMALL, idx, &mut s);
+            mirror(ctx, &Case::new("mirror", s.as_str(), 0, "empty").with(json!({"factor": 1.0})), 1.0);
+            ctx.count("inputs_exhaustive");
+            idx += ctx.nshards as u64;
+        }
+        let n = ctx.budget(30_000, 3_000_000);
+        for k in 0..n {
+            let input = match k % 4 {
+                0 => alphabet::random(ALPHABET, &mut ctx.rng, 3, 30),
+                1 => alphabet::random_structured(ALPHABET, &mut ctx.rng, 25),
+                2 => {
+                    let mut m = alphabet::mutate(SEEDS[ctx.rng.below(SEEDS.len())], ALPHABET, &mut ctx.rng);
+                    for _ in 0..ctx.rng.below(3) {
+                        m = alphabet::mutate(&m, ALPHABET, &mut ctx.rng);
+                    }
+                    m
+                }
+                _ => {
+                    // a generated canonical recipe with line-level damage: CRLF, a backslash at a line end, a lone CR
+                    let seed = ctx.rng.next();
+                    let mut r = Rng::new(seed);
+                    let spec = g::gen_spec(&mut r, &opts);
+                    let t = g::spell(&spec, seed, feat::ALL, 1).text;
+                    match ctx.rng.below(4) {
+                        0 => t.replace('\n', "\r\n"),
+                        1 => t.replace(".\n", ".\\\n").replace('\n', "\r\n"),
+                        2 => t.replace(" \n", "\\\n"),
+                        _ => t.replacen('\n', "\r", 1),
+                    }
+                }
+            };
+            let f = *ctx.rng.pick(&[1.0, 2.0]);
+            mirror(ctx, &Case::new("mirror", input, 0, "empty").with(json!({"factor": f})), f);
+            ctx.count("inputs_random");
+        }
+    }
     let n = ctx.budget(12_000, 2_000_000);
     for _ in 0..n {
         let seed = ctx.rng.next();
